@@ -85,11 +85,17 @@ pub fn run(args: &Args, out: &mut dyn Write) -> Stats {
     let g = GenCfg { depth: 3, width: 3, addr_items: true, cond8: 6 };
     let mut i = 0;
     while i < args.n {
-        let (mut c, w) = gen_conf(&mut r, &g, (22, 29));
+        let (mut c, mut w) = gen_conf(&mut r, &g, (22, 29));
         let (req0, net) = gen_req(&mut r, &w, &c);
+        w.sip = Some(req0.serverip);
         let k = r.range(0, 3);
         for _ in 0..k {
             c.policies.push(gen_policy(&mut r, &w, &g, 1, net));
+        }
+        if !c.policies.is_empty() && r.chance(1, 6) {
+            // a condition-less policy that cannot apply, in front of the others
+            c.policies.insert(0, gen_decoy(&mut r, &w, true));
+            stats.bump("gen.top_level_decoy");
         }
         // a rare misaligned subnet: the loader must reject it
         if r.chance(1, 60) {
